@@ -627,11 +627,32 @@ ENVS = {
 }
 
 
-def judge(r, cases, verdicts, env_name, stats):
+def retry_alone(c, env_name, work):
+    """A case whose process hung or died in a batch, before anything contradicting the model was observed, is run
+    again alone on a fresh engine.  The engine's thread protocol has known rare hangs (C15 / C16 findings: a
+    compile / define that stops the world right after another case's native thread has exited); such a hang says
+    nothing about persistence.  Returns the verdict of the rerun."""
+    k = dict(strip(c), id=c["id"] + "-alone", fresh=True)
+    return vlib.replay([k], work, env_extra=ENVS[env_name], jobs=1, timeout_ms=20000, name=f"alone_{env_name}")[0]
+
+
+def judge(r, cases, verdicts, env_name, stats, work=None):
     reported = 0
     for c, v in zip(cases, verdicts):
         bad = sweep_failure(c, v) if c["meta"]["fam"] == "sweep" else failure(c, v)
+        if bad not in (None, "inconclusive") and work and re.search(r"\|sym=(hang|crash|died)", bad[0]):
+            v2 = retry_alone(c, env_name, work)
+            bad2 = failure(c, v2)
+            if bad2 is None:
+                stats["transient_hangs"].append(f"{c['id']} [{env_name}] {bad[0]}")
+                bad = None
+            else:
+                bad = bad2
         stats["evaluations"][env_name] = stats["evaluations"].get(env_name, 0) + 1
+        if c["meta"]["fam"] == "sweep":
+            got = v.get("got") or []
+            if any(g["class"] == "ok" for si, g in enumerate(got) if si >= 2 and si % 2 == 0):
+                stats["sweep_called_ok"].add(c["meta"]["prim"])
         if bad == "inconclusive":
             # the builtin under sweep killed the process or panicked (robustness, C07): nothing can be observed
             stats["sweep_inconclusive"][c["meta"]["prim"]] = stats["sweep_inconclusive"].get(c["meta"]["prim"], 0) + 1
@@ -716,12 +737,12 @@ def plan(tier, seed):
     if tier == "quick":
         return [
             ("loop", "loop", {"LOOPN": "{6, 70}", "LOOPEVERY": "{5, 33}"}),
-            ("deep", "deep", deep_subst(seed, 0, {"KEEP1": 50, "KEEP2": 35, "KEEPR": 20})),
-            ("kinds", "kinds", {"KEEP1": 90}),
-            ("pairs", "pairs", {"KEEP2": 35}),
-            ("bin", "bin", {"KEEP1": 400, "KEEP2": 120, "KEEPR": 70}),
-            ("threads", "threads", {"KEEP1": 200, "KEEP2": 90, "KEEPR": 35}),
-            ("big", "big", {"KEEP1": 150, "KEEP2": 70, "KEEPR": 30}),
+            ("deep", "deep", deep_subst(seed, 0, {"KEEP1": 60, "KEEP2": 40, "KEEPR": 22})),
+            ("kinds", "kinds", {"KEEP1": 130}),
+            ("pairs", "pairs", {"KEEP2": 45}),
+            ("bin", "bin", {"KEEP1": 500, "KEEP2": 150, "KEEPR": 80}),
+            ("threads", "threads", {"KEEP1": 250, "KEEP2": 100, "KEEPR": 40}),
+            ("big", "big", {"KEEP1": 200, "KEEP2": 80, "KEEPR": 30}),
             ("sweep", "sweep", {}),
         ]
     return [
@@ -740,7 +761,7 @@ def plan(tier, seed):
 
 MAIN_ENVS = ["jit", "nojit"]
 SAMPLE_ENVS = ["inline", "nolift", "inline-nojit"]
-SAMPLE_SIZE = {"quick": 300, "thorough": 4000}
+SAMPLE_SIZE = {"quick": 450, "thorough": 4000}
 SWEEP_NAMES = {"quick": 24, "thorough": 100000}     # how many builtins (seeded choice) are swept
 
 
@@ -758,13 +779,90 @@ def tlc_producer(tier, seed, work, q):
         q.put((None, e))
 
 
+def sharing_selftest(work):
+    """Are the aliases of the rendered programs REAL aliases?  For every engine-thread holder kind X, both as the
+    holder of the base and as the holder of a second reference, the value is replaced by a MUTABLE vector and the
+    update by vector-set!: the expectations (computed for immutable values) must then FAIL exactly at the holder that
+    shares the object - otherwise the rendering of X copies the value and every verdict about X would be vacuous.
+    (Values cross threads by reference, mutable vectors included, so the second-thread kinds are covered too.)"""
+    q = "(list $v (vector-length $v) (equal? $v (vector {})))"
+
+    def al(kind, born, dead, elems):
+        return {"kind": kind, "born": born, "dead": dead, "q": q.format(elems), "exp": f"(#({elems}) 3 #true)"}
+
+    def act(a, i, j, kind, **kw):
+        d = {"a": a, "i": i, "i2": 0, "j": j, "kind": kind, "via": "-", "xfer": "-", "src": "", "how": "", "tpl": "",
+             "arg": "", "alt": "", "op": "-", "pre": []}
+        d.update(kw)
+        return d
+    cases, want = [], []
+    kinds = [(k, "-") for k in ALLK + ["P"] if th(k) == 0 and k != "M"] + [("WL", "chan"), ("WL", "capt"), ("WE", "chan"),
+                                                                            ("WE", "capt")]
+    for x, xfer in kinds:
+        for role in ("base", "second"):
+            if role == "second" and x == "P":
+                continue
+            k1, k2 = (x, "L") if role == "base" else ("L", x)
+            upd_through = 2 if role == "base" else 1      # the update goes through the OTHER alias
+            if SINGLE_USE(k2 if upd_through == 2 else k1):
+                continue
+            als = [al(k1, 0, 0, "1 2 3"), al(k2, 1, 0, "1 2 3"), al("L", 2, 0, "777 2 3")]
+            acts = [act("base", 0, 1, k1, src="(vector 1 2 3)", how="fresh", xfer=xfer if role == "base" else "-"),
+                    act("share", 1, 2, k2, xfer=("chan" if xfer != "-" else "-") if role == "base" else xfer),
+                    act("upd", upd_through, 3, "L", via="d", tpl="(begin (vector-set! $v 0 777) $v)", op="mutant:set!")]
+            obs = [[{"id": 1, "exp": als[0]["exp"]}],
+                   [{"id": 1, "exp": als[0]["exp"]}, {"id": 2, "exp": als[1]["exp"]}],
+                   [{"id": 1, "exp": als[0]["exp"]}, {"id": 2, "exp": als[1]["exp"]}, {"id": 3, "exp": als[2]["exp"]}]]
+            c = alias_case({"fam": "alias", "ty": "ivec", "acts": acts, "als": als, "obs": obs})
+            c["id"] = f"SHARING-{x}-{xfer}-{role}"
+            cases.append(c)
+            want.append(f"s2:a{1 if role == 'base' else 2}:{x}")
+    verdicts = vlib.replay([strip(c) for c in cases], work, env_extra=ENVS["nojit"], jobs=4, timeout_ms=10000,
+                           name="sharing_selftest")
+    for c, v, w in zip(cases, verdicts, want):
+        got = v["got"][1]["emit"] if len(v.get("got") or []) > 1 else []
+        exp = c["steps"][1]["emit"]
+        wrong = [lab for lab, e, g in zip(c["meta"]["labs"], exp, got) if e != g]
+        if len(got) != len(exp) or w not in wrong:
+            raise vlib.ToolError(f"self-test: the holder kind in {c['id']} does not share the object with the updated "
+                                 f"alias (mismatching observations: {wrong}, wanted {w}; class {v['got'][-1]['class'] if v.get('got') else '?'})")
+    return len(cases)
+
+
+def SINGLE_USE(kind):
+    return kind in ("M", "WM", "K")
+
+
+def sample_and_selftest(r, tier, rnd, pool, seen, stats, work):
+    picked = rnd.sample(pool, min(len(pool), SAMPLE_SIZE[tier]))
+    sample = [c for _, c in picked]
+    for env in SAMPLE_ENVS:
+        verdicts = vlib.replay([strip(c) for c in sample], work, env_extra=ENVS[env], jobs=12, timeout_ms=10000,
+                               name=f"sample_{env}")
+        judge(r, sample, verdicts, env, stats, work)
+    # the same histories as ONE top-level expression instead of a function activation
+    top = []
+    for raw, _ in picked:
+        if raw["fam"] == "alias":
+            k = alias_case(raw, toplevel=True)
+            if k["id"] not in seen:
+                seen.add(k["id"])
+                top.append(k)
+    stats["cases"]["toplevel"] = len(top)
+    for env in MAIN_ENVS:
+        verdicts = vlib.replay([strip(c) for c in top], work, env_extra=ENVS[env], jobs=12, timeout_ms=10000,
+                               name=f"toplevel_{env}")
+        judge(r, top, verdicts, env, stats, work)
+    selftest(r, sample, work)
+
+
 def run(tier, seed):
     import queue
     import threading
     work = os.path.join(vlib.WORK, PROP)
     r = vlib.Result(PROP, tier, seed)
     stats = {"evaluations": {}, "failing": 0, "by_finding": {}, "unreported_violations": 0, "groups": {},
-             "cases": {}, "observations": 0, "sweep_inconclusive": {}, "sweep_builtins": 0}
+             "cases": {}, "observations": 0, "sweep_inconclusive": {}, "sweep_builtins": 0, "transient_hangs": [], "sweep_called_ok": set()}
     q = queue.Queue(maxsize=2)
     threading.Thread(target=tlc_producer, args=(tier, seed, work, q), daemon=True).start()
     rnd = random.Random(seed)
@@ -799,9 +897,14 @@ def run(tier, seed):
         stats["cases"][name] = len(cases)
         stats["observations"] += sum(sum(len(st.get("emit") or []) for st in c["steps"]) for c in cases)
         for env in MAIN_ENVS:
-            verdicts = vlib.replay([strip(c) for c in cases], work, env_extra=ENVS[env], jobs=12,
+            sub = cases
+            if name == "sweep" and env == "jit":
+                # with the JIT on, an error raised by a non-tail call inside a compiled function can abort the process
+                # (inconclusive for this property, and expensive): half of the shapes only
+                sub = [c for c in cases if "|shape=MG|" in c["tag"] or "|shape=LG|" in c["tag"]]
+            verdicts = vlib.replay([strip(c) for c in sub], work, env_extra=ENVS[env], jobs=12,
                                    timeout_ms=4000 if name == "sweep" else 10000, name=f"{name}_{env}")
-            judge(r, cases, verdicts, env, stats)
+            judge(r, sub, verdicts, env, stats, work)
         if name == "sweep":
             continue
         idx = rnd.sample(range(len(cases)), min(len(cases), SAMPLE_SIZE[tier] // 3 + 20))
@@ -812,28 +915,11 @@ def run(tier, seed):
                 samples.append({"id": c["id"], "tag": c["tag"], "define": c["steps"][0]["src"][:1500],
                                 "call": c["steps"][1]["src"][:300], "emit": c["steps"][1]["emit"][:8]})
         del raws
-    if not pool:
+    if not pool and not os.environ.get("C03_ONLY"):
         raise vlib.ToolError("no case was generated")
-    picked = rnd.sample(pool, min(len(pool), SAMPLE_SIZE[tier]))
-    sample = [c for _, c in picked]
-    for env in SAMPLE_ENVS:
-        verdicts = vlib.replay([strip(c) for c in sample], work, env_extra=ENVS[env], jobs=12, timeout_ms=10000,
-                               name=f"sample_{env}")
-        judge(r, sample, verdicts, env, stats)
-    # the same histories as ONE top-level expression instead of a function activation
-    top = []
-    for raw, _ in picked:
-        if raw["fam"] == "alias":
-            k = alias_case(raw, toplevel=True)
-            if k["id"] not in seen:
-                seen.add(k["id"])
-                top.append(k)
-    stats["cases"]["toplevel"] = len(top)
-    for env in MAIN_ENVS:
-        verdicts = vlib.replay([strip(c) for c in top], work, env_extra=ENVS[env], jobs=12, timeout_ms=10000,
-                               name=f"toplevel_{env}")
-        judge(r, top, verdicts, env, stats)
-    selftest(r, sample, work)
+    if pool:
+        sample_and_selftest(r, tier, rnd, pool, seen, stats, work)
+    stats["sharing_selftest_cases"] = sharing_selftest(work)
     r.cov["samples"] = samples[:8]
     r.cov["rule"] = ("Persist.tla: histories of base / share / upd / upd2 / reobs actions over aliases with a holder kind each "
                      "(kinds: depth 1, every kind x every kind x every operation x every via; pairs: any holder + a moved second "
@@ -846,8 +932,12 @@ def run(tier, seed):
                      "aliases, helper / apply / map that observes its operand after the update, continuation re-entry) or that "
                      "are loops keeping old versions.")
     r.cov["exhaustive"] = False
+    r.assumptions.append("a case whose process hangs or dies in a batch before any observation disagrees is re-run alone on a "
+                         "fresh engine; if it then agrees it is counted as a transient hang of the engine's thread protocol "
+                         "(known C15 / C16 findings), listed in notes.transient_hangs, not as a persistence violation")
     r.assumptions.append("the in-place decision itself is not observed (it is unobservable by the property's own statement); "
                          "hash maps / sets are observed through sorted entries, lookups, sizes and equal? against a fresh copy")
+    stats["sweep_called_ok"] = len(stats["sweep_called_ok"])     # builtins with >= 1 call that returned normally
     summary = {k: v for k, v in stats.items() if k != "groups"}
     r.notes.append(summary)
     vlib.log(json.dumps(summary))
